@@ -26,7 +26,7 @@ CHECK = {
     "level": "model_checking",
     "engines": ["event", "space", "sched"],
     "technique": "event-level exploration of the real TCP engine with two scripted connections (all interleavings of their reads and closes) and step-order exploration of the real UDP engine over real loopback sockets with 2-3 client sockets, both on the real server entry and the real [edns, cache, marker-stub] pipeline with forced LIFO reuse of every pooled object and slab rings of 1-2; plus exhaustive size/reserve enumeration of the wire-body lease over a poisoned job slab; plus preemption-bounded schedule DFS (controlled cooperative scheduler, lib/sched) over the goroutines of the real UDP engine that put replies on the wire — overflow serves, pool workers (the real worker() body) and a batch reader's inline cycle — with every lock/atomic of package server and a verif-only I/O point placed immediately before each send syscall as scheduling points, over real loopback sockets",
-    "level_text": "tcp (sequential family): connection A is closed by its peer at every interesting offset of its stream (after whole frames, inside a length prefix, inside a body; one read cut) and only THEN connection B is accepted and served: B draws the stream, slab and pooled objects A has just released. slabhistory: for every ordered pair (previous client's query P, this client's query V) over 29 targets x 3 packet shapes on every slab-owning entry path (strict, inline+replay, decoded) and both transports of the real server entry, the reply to V served right after P on the same slab is byte-identical to the reply to V on a slab that has served nothing yet (new engine, zeroed buffers; same world and cache state; first ask discarded as warm-up; differences re-run on two fresh worlds). tcp: clients A and B each send <=2 pipelined frames from {cache hit, miss, malformed body, QR=1, NOTIFY, handler panic after the reply (thorough: +2048/2049-byte queries, sub-header frame)}, each stream cut at every structural offset or not at all, under EVERY interleaving of the two connections' read deliveries and peer-close events, with 1 and 2 small slabs (so the slab, stream, chain, writers and pack state one client releases are what the other gets next). Every frame a connection receives must be a whole frame that answers its own query in order (ID, question, per-query marker record), must contain no occurrence of the other client's 8-byte label anywhere, a bare-header rejection must carry zero section counts, replies must be on the wire whenever the connection waits at a frame boundary, and a request that ends without a reply (ignored, malformed, panicked) leaves nothing for the other client; afterwards the engine is quiescent. udp: the C11 step exploration restricted to scenarios where >=2 different sockets send: a datagram reaches only the socket whose query it answers, carries its ID/question/marker, contains no other client's label, ignored/shed requests produce nothing later on a recycled slab. lease: for every body size 12..600/4200 x reserve {0,1,11,28,64} x slab {512,4096}, BeginWire over a leasing transport whose slab is filled with another client's bytes returns len 0 / cap exactly size+reserve (or a clean fallback), appending past the reserve never writes into the slab, and the transport receives exactly the body. txsched: 2-3 datagrams from 2-3 distinct client sockets (kinds: cache hit, miss, header-level NOTIMP; thorough: + EDNS hit, undecodable body, QR=1) become jobs through the reader's own steps, and are then served CONCURRENTLY by (overflow, overflow), (overflow x3), (worker slot 0 with 1-2 queued jobs, overflow), (two workers with different slots sharing the ready queue), (reader inline cycle flushing on the reader's slot, overflow serve of a handed-off miss) and (reader, worker, overflow), on ring-only and inline engines, with 0-1 spare slabs so that a slab released by one sender is the one the reader takes next; EVERY schedule of those threads with <=2 (thorough <=3) preemptions is executed, scheduling points being every vsync/vatomic operation of package server plus the point before each sendmmsg / WriteMsgUDPAddrPort. At quiescence every client socket must hold exactly one reply per admitted query of its own (ID, question, marker), no byte of another client's label and nothing else; inFlight 0, all leases home, every slab parked once and clean, worker/overflow barriers at 0, no send slot still referencing a job. queryer: every sequence of <=3 (thorough <=5) internal sub-queries through ONE real pipelineQueryer (own question and own request tree each), the terminal handler behaving per step as {answers, writes nothing, writes a SERVFAIL marked request-local, answers and then exhausts the tree's work budget, writes SERVFAIL}, with LIFO pools so the BufferWriter and chain released by one sub-query are what the next one gets: Query returns a message only when this step's own handler wrote a response for this step's own question that the queryer's rules accept, otherwise an error (ErrNoResponse when nothing was written).",
+    "level_text": "tcp (sequential family): connection A is closed by its peer at every interesting offset of its stream (after whole frames, inside a length prefix, inside a body; one read cut) and only THEN connection B is accepted and served: B draws the stream, slab and pooled objects A has just released. slabhistory: for every ordered pair (previous client's query P, this client's query V) over 29 targets x 3 packet shapes on every slab-owning entry path (strict, inline+replay, decoded) and both transports of the real server entry, the reply to V served right after P on the same slab is byte-identical to the reply to V on a slab that has served nothing yet (new engine, zeroed buffers; same world and cache state; first ask discarded as warm-up; differences re-run on two fresh worlds). tcp: clients A and B each send <=2 pipelined frames from {cache hit, miss, malformed body, QR=1, NOTIFY, handler panic after the reply (thorough: +2048/2049-byte queries, sub-header frame)}, each stream cut at every structural offset or not at all, under EVERY interleaving of the two connections' read deliveries and peer-close events, with 1 and 2 small slabs (so the slab, stream, chain, writers and pack state one client releases are what the other gets next). Every frame a connection receives must be a whole frame that answers its own query in order (ID, question, per-query marker record), must contain no occurrence of the other client's 8-byte label anywhere, a bare-header rejection must carry zero section counts, replies must be on the wire whenever the connection waits at a frame boundary, and a request that ends without a reply (ignored, malformed, panicked) leaves nothing for the other client; afterwards the engine is quiescent. udp: the C11 step exploration restricted to scenarios where >=2 different sockets send: a datagram reaches only the socket whose query it answers, carries its ID/question/marker, contains no other client's label, ignored/shed requests produce nothing later on a recycled slab. lease: for every body size 12..600/4200 x reserve {0,1,11,28,64} x slab {512,4096}, BeginWire over a leasing transport whose slab is filled with another client's bytes returns len 0 / cap exactly size+reserve (or a clean fallback), appending past the reserve never writes into the slab, and the transport receives exactly the body. txsched: 2-3 datagrams from 2-3 distinct client sockets (kinds: cache hit, miss, header-level NOTIMP; thorough: + EDNS hit, undecodable body, QR=1) become jobs through the reader's own steps, and are then served CONCURRENTLY by (overflow, overflow), (overflow x3), (worker slot 0 with 1-2 queued jobs, overflow), (two workers with different slots sharing the ready queue), (reader inline cycle flushing on the reader's slot, overflow serve of a handed-off miss) and (reader, worker, overflow), on ring-only and inline engines, with 0-1 spare slabs so that a slab released by one sender is the one the reader takes next; EVERY schedule of those threads with <=2 (thorough <=3) preemptions is executed, scheduling points being every vsync/vatomic operation of package server plus the point before each sendmmsg / WriteMsgUDPAddrPort. At quiescence every client socket must hold exactly one reply per admitted query of its own (ID, question, marker), no byte of another client's label and nothing else; inFlight 0, all leases home, every slab parked once and clean, worker/overflow barriers at 0, no send slot still referencing a job. queryer: every sequence of <=3 (thorough <=5) internal sub-queries through ONE real pipelineQueryer (own question and own request tree each), the terminal handler behaving per step as {answers, writes nothing, writes a SERVFAIL marked request-local, answers and then exhausts the tree's work budget, writes SERVFAIL}, with LIFO pools so the BufferWriter and chain released by one sub-query are what the next one gets: Query returns a message only when this step's own handler wrote a response for this step's own question that the queryer's rules accept, otherwise an error (ErrNoResponse when nothing was written). Unit tcpbig: ~9.5 KiB answers (resolved on a miss, and cached = served on the strict path) pipelined with small ones in every order of <= 3 frames x segmentations at the frame boundaries; frames must leave whole, in query order, each its own query's.",
     "level_note": "Trusted: as C11 (scripted net.Conn, kernel side of recvmmsg emulated, engine step functions called from one goroutine). Provenance is checked by byte search for the other client's label (present in its qname, and therefore in its question, answer owner and marker) and by ID; the slack behind a reply inside a job slab is covered by the lease unit, not by inspecting slabs after the fact. Not covered: DoH/DoQ/DoT transports, shared upstream lookups in the resolver (groupLookup copies), dns64/ratelimit/other middlewares' pooled writers, the portable UDP reader's rawSALen scrub (needs mixed batch/portable readers), wildcard pktinfo, real multi-core interleaving inside one step. txsched: the scheduling point before a send is an overlay-only textual patch of the build copy of server/udp_batch_linux.go and server/udp_engine.go (vk unit key \"patch\": `vsched.IOPoint(..)` in front of `rc.Write(s.writeFn)` in sendGroup and of the WriteMsgUDPAddrPort calls in udpJob.Write/sendDirect, plus the import; an anchor that does not occur exactly once is a build error, exit 2) — nothing in /repo. The point sits BEFORE rc.Write, never inside it (a thread must not yield under the runtime's fd lock), so arming (plain stores into the sender's hdrs/iovs) is one atomic block and the send syscall another: interleavings INSIDE the arming loop or inside the kernel's copy of the msghdr are not explored (the duplicate/starved-client shape of a shared sender is, the torn header shape is not). Trusted: vsync/vatomic model sequentially consistent memory; packages other than server are not rewritten (the pipeline between two server-level points is atomic); the kernel side of recvmmsg is emulated as in C11/udp; an overflow serve is the harness running `e.overflowG.Add(1); e.serveOverflow(j)` as a managed thread on a job it took back off the (deep) ready queue, because enqueueCounted's `go` statement cannot be intercepted (udpOverflowServed is not counted); a worker thread is the real worker(slot) body on an already-closed ready queue (shutdown shape: it never blocks, so its only flushes are burst-full, the chain's FlushStaged and the final one); the reader thread transcribes run()'s cycle (take/arm, finishRecv per message, flushTX, compact) without the netpoller; channel operations are not scheduling points. Not driven: the portable reader, wildcard pktinfo, sendmmsg refusal/retirement fallbacks, more than one socket per engine.",
     "rule": "tcp: (slabs, frames of A, frames of B, cut?, cut?, interleaving); 'nontrivial' = interleavings in which the two connections really alternate (a..b..a or b..a..b); udp: datagram sequence x cap x inline x full schedule, nontrivial = >=2 datagrams; lease: nontrivial = sizes actually leased from the slab; txsched: (engine mode, datagram kinds x routes, spare slabs) x every schedule within the preemption bound; 'nontrivial' = schedules in which two different threads were parked at their I/O point at the same time (A armed, B armed, then both sent)",
     "assumptions": ["loopback UDP preserves order per socket pair", "with a single small slab, schedules in which one connection would need the slab the other holds inside a frame body are skipped (the engine would wait on real time); they are explored with 2 slabs"],
@@ -54,6 +54,10 @@ CHECK = {
         "tcp": {"pkg": "server", "run": "TestVerifC10TCP", "harness": _SRV_H,
                 "rewrite": _SRV_RW, "gomaxprocs": 2,
                 "budget_s": {"quick": 70, "thorough": 330}},
+        # replies beyond the stream's staging room pipelined with small ones (order, wholeness)
+        "tcpbig": {"pkg": "server", "run": "TestVerifC10TCPBig", "harness": _SRV_H,
+                   "rewrite": _SRV_RW, "gomaxprocs": 2, "shards": 2,
+                   "budget_s": {"quick": 40, "thorough": 150}},
         "udp": {"pkg": "server", "run": "TestVerifC10UDP", "harness": _SRV_H,
                 "rewrite": _SRV_RW, "gomaxprocs": 2,
                 "budget_s": {"quick": 60, "thorough": 300}},
